@@ -124,6 +124,15 @@ type eng struct {
 
 	ending atomic.Bool
 
+	// `dgoinj <k> <n>`: the next n op lines run inside the k-th transform call of the leg (a harness transaction
+	// on the input table committing while the loop's transaction is open); their output follows the leg's line
+	injLines  []string
+	injAt     int
+	injecting bool
+	trCalls   int
+	injOut    []string
+	collect   int
+
 	// oracle state
 	rogueOut bool // the harness wrote the output table itself
 }
@@ -205,6 +214,10 @@ func objS(id []byte, val int, rev uint64) string { return fmt.Sprintf("%s/%d@%d"
 
 // transform: see tr_std in Table/Clients.v
 func (e *eng) transform(o *In, deleted bool) (*Out, statedb.DeriveResult) {
+	e.trCalls++
+	if e.injAt > 0 && e.trCalls == e.injAt && !e.ending.Load() {
+		e.runInjected()
+	}
 	p := &Out{ID: o.ID, Val: o.Val}
 	if e.mode == 0 {
 		if deleted {
@@ -288,28 +301,118 @@ func (e *eng) deriveOracles(ready bool) string {
 	return bad
 }
 
-// C19 (through its client): a leg of the Derive loop that makes the derived table initialized ran at a
-// moment when the input table was initialized, and has transformed everything the input table holds
-// (no harness operation runs between the leg and this check)
-func (e *eng) flipOracle(outBefore bool) string {
+// C19 (through its client): a leg of the Derive loop that makes the derived table initialized started from a
+// root in which the input table was initialized, and has transformed everything the input table held in that
+// root (legState is taken just before the leg is released; a transaction injected into the leg commits after
+// the leg has taken its snapshot)
+type legState struct {
+	outInit, inInit bool
+	inContents      string
+}
+
+func (e *eng) beforeLeg() legState {
+	rtxn := e.db.ReadTxn()
+	o, _, _ := e.initialized(rtxn, 1)
+	i, _, _ := e.initialized(rtxn, 0)
+	return legState{o, i, e.contents(rtxn, 0, false)}
+}
+
+func (e *eng) flipOracle(before legState) string {
 	rtxn := e.db.ReadTxn()
 	outAfter, _, _ := e.initialized(rtxn, 1)
-	if outBefore || !outAfter {
+	if before.outInit || !outAfter {
 		return ""
 	}
 	bad := ""
-	inInit, _, _ := e.initialized(rtxn, 0)
-	if !inInit {
+	if !before.inInit {
 		bad += " !BAD:C19:derived-table-initialized-before-its-input"
 	}
-	if e.mode == 0 && !e.rogueOut && e.contents(rtxn, 0, false) != e.contents(rtxn, 1, false) {
+	if e.mode == 0 && !e.rogueOut && before.inContents != e.contents(rtxn, 1, false) {
 		bad += " !BAD:C19:derived-table-initialized-before-input-was-transformed"
 	}
 	return bad
 }
 
+// runInjected executes the deferred op lines (on whichever goroutine calls it), buffering their output
+func (e *eng) runInjected() {
+	lines := e.injLines
+	e.injLines, e.injAt = nil, 0
+	e.injecting = true
+	buf := &lineBuf{}
+	for _, l := range lines {
+		e.op(strings.Fields(l), l, buf)
+	}
+	e.injecting = false
+	e.injOut = append(e.injOut, buf.lines...)
+}
+
+type printer interface{ P(format string, a ...any) }
+type lineBuf struct{ lines []string }
+
+func (b *lineBuf) P(format string, a ...any) { b.lines = append(b.lines, fmt.Sprintf(format, a...)) }
+
+func (e *eng) wait() {
+	if !e.injecting {
+		synctest.Wait()
+	}
+}
+
 func (e *eng) Op(f []string, line string, out *hx.Out) {
+	if e.collect > 0 {
+		// an op line belonging to a preceding dgoinj: run when the leg reaches its transform call
+		e.collect--
+		e.injLines = append(e.injLines, line)
+		if e.collect == 0 {
+			e.dgoInjected(out)
+		}
+		return
+	}
+	e.op(f, line, out)
+}
+
+// dgoInjected: the leg of `dgoinj`, once its op lines have been collected
+func (e *eng) dgoInjected(out printer) {
+	n := len(e.injLines)
+	if !e.dStarted || e.wtxn != nil {
+		out.P("P:C07,C19 ran=false")
+		e.runInjected()
+	} else {
+		synctest.Wait()
+		if !e.dGate.parked.Load() {
+			out.P("P:C07,C19 ran=false")
+			e.runInjected()
+		} else {
+			outBefore := e.beforeLeg()
+			e.trCalls = 0
+			e.dGate.let()
+			synctest.Wait()
+			e.dLegs++
+			if e.injLines != nil {
+				// the leg had fewer transform calls: the transaction runs after it
+				e.runInjected()
+				synctest.Wait()
+			}
+			out.P("P:C07,C19 ran=true%s", e.flipOracle(outBefore))
+		}
+	}
+	for _, l := range e.injOut {
+		out.P("%s", l)
+	}
+	for i := len(e.injOut); i < n; i++ {
+		out.P("E missing injected output")
+	}
+	e.injOut = nil
+}
+
+func (e *eng) op(f []string, line string, out printer) {
 	switch f[0] {
+	case "dgoinj":
+		e.injAt, e.collect = atoi(f[1]), atoi(f[2])
+		e.injLines = nil
+		if e.collect == 0 {
+			e.injLines = []string{}
+			e.dgoInjected(out)
+		}
 	case "mode":
 		e.mode = atoi(f[1])
 		out.P("M:C07,C19 ok")
@@ -341,7 +444,7 @@ func (e *eng) Op(f []string, line string, out *hx.Out) {
 			e.wtxn.Abort()
 		}
 		e.wtxn = nil
-		synctest.Wait()
+		e.wait()
 		out.P("M:C07,C19 ok")
 	case "insert":
 		if e.wtxn == nil {
@@ -494,7 +597,8 @@ func (e *eng) Op(f []string, line string, out *hx.Out) {
 			out.P("P:C07,C19 ran=false ready=false%s", e.deriveOracles(false))
 			return
 		}
-		outBefore, _, _ := e.initialized(e.db.ReadTxn(), 1)
+		outBefore := e.beforeLeg()
+		e.trCalls = 0
 		e.dGate.let()
 		synctest.Wait()
 		e.dLegs++
